@@ -20,6 +20,8 @@ def build(inst):
     for i, (u, v) in enumerate(inst["edges"]):
         if ew is not None and len(ew) > i and ew[i] != NONE:
             G.add_edge(u, v, flow=ew[i])
+            if inst.get("ew2"):
+                G[u][v]["alt"] = inst["ew2"][i]      # a second weight attribute on the same graph
         else:
             G.add_edge(u, v)
     return G
@@ -94,7 +96,7 @@ def run_instance(inst):
                 u, v = inv.get(op[1], op[1]), inv.get(op[2], op[2])
                 ev["ret"] = 1 if H.is_scc_edge(u, v) else 0
             elif name == "maxreach":
-                d = H.compute_edge_max_reachable_value("flow")
+                d = H.compute_edge_max_reachable_value(op[1] if len(op) > 1 else "flow")
                 ev["rete"] = sorted([ren(k[0], syn), ren(k[1], syn), fx(v)] for k, v in d.items())
             elif name == "antichain":
                 wf = {tuple(inv.get(x, x) for x in (e[0], e[1])): e[2] for e in op[1]}
